@@ -174,6 +174,10 @@ def r03_3(ctx):
     ctx.ob("R03.3", "pack/unpack:directions", sp.get(("Shl", "KIND_BITS")) == 1 and sp.get(("Shl", "LEN_OFFSET")) == 1 and su.get(("Shr", "KIND_BITS")) == 1 and su.get(("Shr", "LEN_OFFSET")) == 1, pk.loc(), f"pack: {dict(sp)}; unpack: {dict(su)}")
 
 
+def _is_pn(ty):
+    return ty.endswith("ParserNumber") and "<" not in ty
+
+
 def r03_4(ctx):
     prog = ctx.prog()
     f = prog.find("Parser::parse_literal_visit")
@@ -207,12 +211,18 @@ def r03_4(ctx):
     # number classes
     for name in ("parse_number_inplace", "parse_number_visit"):
         g = prog.find(f"Parser::{name}")
+        # the dispatch on the number's class may sit in a private helper of the file that both drivers share
+        if not any(t["k"] == "switch" and op_local(t["discr"]) is not None and g.single_def(op_local(t["discr"])) and g.single_def(op_local(t["discr"]))[0] == "stmt"
+                   and g.single_def(op_local(t["discr"]))[3]["rv"]["k"] == "discr" and _is_pn(g.locals[g.single_def(op_local(t["discr"]))[3]["rv"]["p"][0]]["ty"]) for b, t in g.terms()):
+            hs = [prog.fns[t["callee"]] for b, t in g.calls() if t["callee"] in prog.fns and prog.fns[t["callee"]].file == g.file and any("ParserNumber" in x for x in prog.fns[t["callee"]].inputs)]
+            if len(hs) == 1:
+                g = hs[0]
         mp = {}
         for b, t in g.terms():
             if t["k"] == "switch":
                 dl = op_local(t["discr"])
                 d = g.single_def(dl) if dl is not None else None
-                if d and d[0] == "stmt" and d[3]["rv"]["k"] == "discr" and "ParserNumber" in g.locals[d[3]["rv"]["p"][0]]["ty"]:
+                if d and d[0] == "stmt" and d[3]["rv"]["k"] == "discr" and _is_pn(g.locals[d[3]["rv"]["p"][0]]["ty"]):
                     variants = {int(v["discr"]): v["name"] for v in prog.adts["sonic_number::ParserNumber"]["variants"]}
                     edges = switch_edges(g, b)
                     for v, tgt in edges:
@@ -391,6 +401,23 @@ def r03_8(ctx):
             ctor = nm.startswith("new_") and "value::node::Value" in t["callee"]
             if (dom_visit or ctor) and any(op_local(a) in der for a in t["args"]):
                 sinks.append((b, t))
+            # a private helper that takes the parsed number and makes the node / calls the visitor with it
+            h = prog.fns.get(t["callee"])
+            if h is not None and h.crate == "sonic_rs" and h is not f and any(op_local(a) in der for a in t["args"]) and not callee_is(t, "parse_number"):
+                pidx = [i_ + 1 for i_, a in enumerate(t["args"]) if op_local(a) in der]
+                hder = set(pidx)
+                for _ in range(4):
+                    hder |= forward_derived(h, hder)
+                    for hb, hi, hs in h.assigns():
+                        pl = op_place(hs["rv"]["op"]) if hs["rv"]["k"] == "use" else None
+                        if pl is not None and pl[0] in hder and not hs["lhs"][1]:
+                            hder.add(hs["lhs"][0])
+                for hb, ht in h.calls():
+                    hn = ht["callee"].rsplit("::", 1)[-1]
+                    if ((hn in ("visit_u64", "visit_i64", "visit_f64") and "JsonVisitor" in (ht.get("trait") or ht["callee"])) or (hn.startswith("new_") and "value::node::Value" in ht["callee"])) \
+                            and any(op_local(a) in hder for a in ht["args"]):
+                        sinks.append((b, t))
+                        break
         for b, t in sinks:
             n += 1
             guarded = False
